@@ -643,7 +643,7 @@ func tedDecisions(b, tb *strings.Builder, p *pkgInfo) {
 		}
 		// decision table: ((IgnoreLiterals, IgnoreIdentifiers, ReduceBoilerplateWeight), label) -> multiplier, with BoilerplateMultiplier = 1/8
 		labels := addDistinct(append([]string{}, general...), catLabels...)
-		labels = addDistinct(labels, "Decorator", "AnnAssign", "AnnAssign(x)", "Call(Field()", "Name(field()", "Constant(generic_type)", "Name(Type_Parameter)", "Call(attr.ib()")
+		labels = addDistinct(labels, "Decorator", "AnnAssign", "AnnAssign(x)", "Call(Field()", "Name(field()", "Constant(generic_type)", "Name(TYPE_PARAMETER)", "Call(attr.ib()")
 		var rows []string
 		for _, fl := range [][3]bool{{false, false, false}, {true, true, false}, {false, false, true}, {true, false, true}, {false, true, true}, {true, true, true}} {
 			c := model(fl[0], fl[1], fl[2], 0.125)
